@@ -1,10 +1,10 @@
 #!/usr/bin/env python3
-"""tools/verify_seed.py <Cxx> <X>  — confirm a sub-agent's seeded change in a scratch worktree of /repo HEAD:
+"""tools/verify_seed.py <Cxx> <X>  (X in A, B: first batch /tmp/wt; C, D: second batch /tmp/wt2) — confirm a sub-agent's seeded change in a scratch worktree of /repo HEAD:
  demo passes on clean tree, fails with the patch, existing tests (relevant packages) still pass with the patch.
  On success writes /verif/seeded/<Cxx>-<X>/{patch.diff,demo.py,meta.json}. Scratch worktree removed at the end."""
 import json, os, re, subprocess, sys, shutil, time
 pid, x = sys.argv[1], sys.argv[2]
-src = f"/tmp/wt/{pid}.out"
+src = f"/tmp/wt/{pid}.out" if x in ("A", "B") else f"/tmp/wt2/{pid}.out"      # second batch of sub-agents: variants C, D
 patch, demo, meta = f"{src}/{x}.patch.diff", f"{src}/{x}.demo.py", f"{src}/{x}.meta.md"
 wt = f"/tmp/seedwt/{pid}-{x}"
 os.makedirs("/tmp/seedwt", exist_ok=True)
